@@ -152,7 +152,7 @@ def ob_perm(ctx, var):
         for s in range(len(xs)):
             ref = reference(K, xs[s], alg.add, alg.mul)
             for i in range(12):
-                sv = z3.Solver(); sv.set('timeout', 60000); sv.add(p.pc); sv.add((alg.toz3(outs[s][i]) - alg.toz3(ref[i])) % P != 0); r = sv.check(); nq += 1; smt.STATS['queries'] += 1
+                sv = z3.Solver(); sv.set('timeout', 60000); sv.add(p.pc); sv.add((alg.toz3(outs[s][i]) - alg.toz3(ref[i])) % P != 0); r = smt.check(sv); nq += 1
                 if r == z3.unsat: continue
                 return confirm_perm(ctx, var, K, 'output %d of state %d is not provably the specified permutation%s' % (i, s, ' on a data-dependent path' if p.pc else ''), sv.model() if r == z3.sat else None, len(xs))
     if len(paths) != 1 or w.explore_incomplete: return inconc('hash_full_result (%s): data-dependent control flow (%d paths explored%s), all explored paths agree with the reference' % (var, len(paths), ', exploration incomplete' if w.explore_incomplete else ''))
@@ -231,7 +231,7 @@ def sponge(xs):
 def zi(a): return z3.IntVal(a) if is_c(a) else a
 def all_eq(pairs):
     """EUF query: is any pair different?  returns None (all equal) or index of a differing pair"""
-    s = z3.Solver(); s.set('timeout', 120000); s.add(z3.Or([zi(a) != zi(b) for a, b in pairs])); r = s.check(); smt.STATS['queries'] += 1
+    s = z3.Solver(); s.set('timeout', 120000); s.add(z3.Or([zi(a) != zi(b) for a, b in pairs])); r = smt.check(s)
     if r == z3.unsat: return None
     if r == z3.unknown: raise Unsupported('EUF query unknown')
     m = s.model()
